@@ -14,7 +14,7 @@ from scipy.linalg import norm
 from .bodies import Earth
 from .bodies.third_body import Sun
 from .constants import DEG2RAD, M2KM, PI, SOLAR_FLUX, SPEED_OF_LIGHT
-from .maths import subtendedAngle
+from .maths import safeArccos, subtendedAngle
 from .measurements import getElevation
 from .transforms.methods import spherical2cartesian
 
@@ -97,7 +97,7 @@ def calculateSunVizFraction(tgt_eci_position: ndarray, sun_eci_position: ndarray
     # Montenbruck, Eqs. 3.85 to 3.87
     a = arcsin(Sun.radius / norm(sat_sun_vector))
     b = arcsin(Earth.radius / norm(tgt_eci_position))
-    c = arccos(
+    c = safeArccos(
         dot(-tgt_eci_position, sat_sun_vector) / (norm(tgt_eci_position) * norm(sat_sun_vector)),
     )
 
@@ -169,7 +169,7 @@ def checkGroundSensorLightingConditions(
     Returns:
         ``bool``: whether the sensor can view objects or not based on the lighting condition.
     """
-    satellite_sun_angle = arccos(
+    satellite_sun_angle = safeArccos(
         dot(sun_eci_unit_vector, sensor_eci_position) / norm(sensor_eci_position),
     )
     return satellite_sun_angle >= PI / 2 + buffer_angle
@@ -198,7 +198,7 @@ def checkSpaceSensorLightingConditions(
     Returns:
         ``bool``: whether the sensor can view objects or not based on the lighting condition.
     """
-    boresight_sun_angle = arccos(
+    boresight_sun_angle = safeArccos(
         dot(sun_eci_unit_vector, boresight_eci_vector) / norm(boresight_eci_vector),
     )
     return boresight_sun_angle >= cone_angle
@@ -308,7 +308,7 @@ def checkGalacticExclusionZone(boresight_eci_vector, cone_angle=PI / 30):
     | :math:`\delta = -29^{\circ}\,00^{\prime}\,28.1^{\prime\prime}` (:math:`-29.007805555555555556^{\circ}`)
     | :math:`\rho \approx 26` kilolight-years
     """
-    boresight_belt_angle = arccos(
+    boresight_belt_angle = safeArccos(
         dot(GALACTIC_CENTER_ECI[:3], boresight_eci_vector)
         / (norm(GALACTIC_CENTER_ECI[:3]) * norm(boresight_eci_vector)),
     )
